@@ -14,7 +14,7 @@ GROUPS = {
             ["models.py:LabelEncoder", "models.py:ContinuousMultiVariable", "models.py:DiscreteMultiVariable", "models.py:PermutationVariable",
              "models.py:MultiObjectiveVariable", "models.py:BinaryVariable"]),
     "T14": ("C14 (and C01/C02/C05/C09): the task's description of its search space",
-            ["models.py:Task.__init__", "models.py:Task.validate_objective_weights", "models.py:Task.empty_solution",
+            ["models.py:Task.validate_objective_weights", "models.py:Task.empty_solution",
              "models.py:ContinuousMultiVariable", "models.py:DiscreteMultiVariable", "models.py:MultiObjectiveVariable", "models.py:BinaryVariable"]),
     "T19": ("C19: the tuner and what is left of the parameter grid (`ParameterGrid.__iter__` / `__len__` are translated: R19)", ["hypertuner.py:ParameterGrid.__init__", "hypertuner.py:ParameterGrid.__getitem__", "hypertuner.py:HyperTuner", "enums.py:TaskType", "enums.py:ModeSolver"]),
     "T20": ("C20: the parts of Multitask that are not translated (`__check_input__`, `__check_modes__`, `__get_mode__`, `__init__`, `execute`, `__parallelize__`, `__run__` are: R20)",
